@@ -271,6 +271,85 @@ func runC06(c *fw.Ctx) {
 	}
 	wg.Wait()
 	c06Writer(c)
+	for r := 0; r < c.Pick(4, 30); r++ {
+		c06WriteFailure(c, r)
+	}
+}
+
+// c06WriteFailure: the broker's write to subscriber A fails while A's session is still registered
+// (hook-free fault injection at the transport interface). The identifier of that delivery stays
+// allocated: it must not be handed to a delivery for subscriber B, neither at once nor after A's
+// session has been removed and its in-flight entry expired.
+func c06WriteFailure(c *fw.Ctx, r int) {
+	fw.LogCase("C06 write-failure scenario %d", r)
+	cl := kit.NewCluster(kit.WorkDir("c06f"))
+	defer cl.Close()
+	n, err := cl.AddNode(kit.NodeOpts{ID: 1, PoolMin: 1, PoolMax: 8})
+	if err != nil {
+		c.Inconclusive("cannot start node: " + err.Error())
+		return
+	}
+	qos := 1 + r%2
+	a, fa := n.DialFaulty("A")
+	defer a.Close()
+	if code, err := a.Connect(kit.ConnectOpts{ClientID: "A", KeepAlive: 600, Clean: true}); err != nil || code != 0 {
+		c.Inconclusive("connect A failed")
+		return
+	}
+	a.SetAutoAck(false)
+	b, err := n.MustConnect(kit.ConnectOpts{ClientID: "B", KeepAlive: 600, Clean: true})
+	if err != nil {
+		c.Inconclusive("connect: " + err.Error())
+		return
+	}
+	defer b.Close()
+	b.SetAutoAck(false)
+	pub, err := n.MustConnect(kit.ConnectOpts{ClientID: "pub", KeepAlive: 600, Clean: true})
+	if err != nil {
+		c.Inconclusive("connect: " + err.Error())
+		return
+	}
+	defer pub.Close()
+	if a.Sub1("c06f/a", qos) != nil || b.Sub1("c06f/b", qos) != nil {
+		c.Inconclusive("subscribe failed")
+		return
+	}
+	waitB := func(tag string) (int, bool) {
+		ev, _, err := b.WaitFor(0, 20*time.Second, func(e kit.Event) bool { return e.Pkt.Type == kit.PUBLISH && string(e.Pkt.Payload) == tag })
+		return ev.Pkt.ID, err == nil
+	}
+	fa.FailWrites(true)
+	pub.Publish("c06f/a", []byte("to-A-lost"), 1, false, kit.DefaultWait) // its write to A fails; the exchange stays in flight
+	pub.Publish("c06f/b", []byte("to-B-1"), 1, false, kit.DefaultWait)
+	id1, ok := waitB("to-B-1")
+	if !ok {
+		c.Inconclusive("B never received its first message")
+		return
+	}
+	// A's session goes away; its in-flight entry expires; its identifier is released exactly once
+	a.Close()
+	if !sessionGone(n, "A", 10*time.Second) {
+		c.Inconclusive("A's session was not removed")
+		return
+	}
+	far := time.Now().Add(time.Hour)
+	n.Ack.Expire(far)
+	// B has not acknowledged to-B-1: its identifier is still outstanding
+	pub.Publish("c06f/b", []byte("to-B-2"), 1, false, kit.DefaultWait)
+	pub.Publish("c06f/b", []byte("to-B-3"), 1, false, kit.DefaultWait)
+	id2, ok2 := waitB("to-B-2")
+	id3, ok3 := waitB("to-B-3")
+	c.Observe("write_failure_scenarios", 1)
+	c.Observe("writes_refused_by_fault_injection", int(fa.Failed))
+	c.Case(fmt.Sprintf("write-failure|%d", r), true)
+	if !ok2 || !ok3 {
+		c.Violation("writer:delivery-lost-after-write-failure", fmt.Sprintf("write-failure scenario %d: after a failed write to another session, deliveries to B were dropped (got to-B-2: %v, to-B-3: %v)", r, ok2, ok3), nil)
+		return
+	}
+	if id2 == id1 || id3 == id1 || id2 == id3 {
+		c.Violation("writer:identifier-reused-while-outstanding", fmt.Sprintf("write-failure scenario %d (QoS %d): B's unacknowledged deliveries carry identifiers %d, %d, %d - a failed write to another session returned an identifier to the pool while its exchange was still in flight", r, qos, id1, id2, id3),
+			map[string]interface{}{"scenario": r, "ids": []int{id1, id2, id3}})
+	}
 }
 
 // c06Writer: writer level, with a pool of 8 identifiers (hook H1) and a subscriber
